@@ -466,7 +466,7 @@ impl Serialize for dyn Rule {
                 }
             }
 
-            if !metadata.apply_to_filters.is_empty() {
+            if !metadata.skip_filters.is_empty() {
                 let filters = metadata
                     .skip_filters
                     .iter()
